@@ -242,6 +242,13 @@ def check(run, project):
     # (or an error that should stop the decode) without any event - the events no longer add up to the input
     from .shared import discarded_generators
     discarded_generators(run, project, "B8")
+    # B10 (= C01-W0): a field re-encodes to the bytes at its own offset only if it was decoded with the width the layout
+    # declares for it at that position: the decode facets (field order and declared types) of all types equal the snapshot
+    from . import c20 as _c20
+    try:
+        _c20.t6(run, project, L, facets={"decode"}, rule="B10")
+    except AnalysisError as ex:
+        run.info(f"B10: the layout tables could not be compared ({ex}); not judged here (C01 / C20 report it)")
     run.floor("B5", 100, "primitive types")
 
 
